@@ -513,15 +513,16 @@ def explore_unit(system, pass_, depth, tier, deadline):
 def run_c10(tier):
     """Returns aggregate dict + list of violations (history, expected, observed)."""
     t0 = time.time()
-    budget = 120 if tier == 'quick' else 2400
+    # quick units are bounded by depth, never by time (a loaded machine must not silently skip them); the thorough tier's deep searches are time-capped and say so
+    budget = 3600 if tier == 'quick' else 2400
     agg = dict(states=0, transitions=0, units=[], violations=[])
     for system, pass_, depth in _units(tier):
         left = budget - (time.time() - t0)
         if left < 5:
             agg['units'].append({'system': system, 'pass': pass_, 'skipped': 'time budget exhausted'})
             continue
-        share = left if not system.startswith('corpus:') else min(left, 40)
-        r = explore_unit(system, pass_, depth, tier, time.time() + share * (0.5 if not system.startswith('corpus:') else 0.6))
+        share = left if not system.startswith('corpus:') else min(left, 40 if tier != 'quick' else left)
+        r = explore_unit(system, pass_, depth, tier, time.time() + share * (1.0 if tier == 'quick' else 0.5 if not system.startswith('corpus:') else 0.6))
         agg['states'] += r['states']
         agg['transitions'] += r['transitions']
         agg['units'].append({'system': system, 'pass': pass_, 'depth_bound': depth, 'depth_completed': r['depth_completed'], 'saturated': r['saturated'], 'events': r['events'],
